@@ -793,9 +793,10 @@ def good_value(p, idx, alt=0):
     if b in ("pt", "ptref"):
         return ["pt", 30 + idx + alt, 0.5 + idx]
     if b in ("ilist", "ilist_inout", "vec"):
-        return ["tuple" if alt else "list", [["int", 3 + idx], ["int", 4 + alt], ["bool", True]][: 3 - (idx % 2)]]
+        # -1 and 0 are the values C conversion functions also use to report an error
+        return ["tuple" if alt else "list", [["int", -1], ["int", 3 + idx], ["int", 0], ["bool", True]][: 4 - (idx % 2)]]
     if b in ("dlist", "dvec"):
-        return ["list", [["float", 1.5 + idx], ["int", 2 + alt]]]
+        return ["list", [["float", -1.0], ["float", 1.5 + idx], ["int", 0 if alt == 0 else -1]]]
     if b == "strlist":
         return ["list", [["str", "ab%d" % idx], ["str", "c" * (alt + 1)]]]
     raise AssertionError(p.kind)
@@ -912,7 +913,9 @@ def expectation(f, S, flag):
     vi = 0
     byname = {}
     env = {}
-    for p in f.params:          # values of the scalar arguments, for +dimension expressions
+    for idx, p in enumerate(f.params):          # values of the scalar arguments, for +dimension expressions
+        if p.kind == "int_hidden":
+            env[p.name] = pygen.out_value(p, idx)
         if p.visible:
             v = raw(S[vi]) if vi in S else p.default
             if p.base() in pygen.INTLIKE:
@@ -933,7 +936,7 @@ def expectation(f, S, flag):
             elif p.intent == "inout":
                 rets.append(enc_expected(pygen.out_value(p, idx, raw(S[vi]))))
             vi += 1
-        else:
+        elif p.kind != "int_hidden":          # a hidden argument is passed to the library but never returned
             rets.append(enc_expected(pygen.out_value(p, idx, env=env)))
     head = f.label
     if f.cls and not f.static and not f.ctor:
